@@ -91,6 +91,7 @@ Theorem ev_accepts : forall vdocs m e,
   run_evs (map events_of_forest (map (map erase_v) vdocs)) = Ok e ->
   clash_free_tree e = true -> names_plain e = true ->
   Forall (Forall data_oriented) vdocs ->
+  Forall (Forall (fun v => known_k3_b v = false)) vdocs ->
   forall deny vd, In vd vdocs ->
     exists v, de_doc qx_flavour (render_abs quick_xml_de e) deny vd = Some v.
 Proof.
@@ -222,9 +223,9 @@ Example ex_ev_accepts :
             /\ forall deny vd, In vd vx_docs ->
                  exists v, de_doc qx_flavour (render_abs quick_xml_de e) deny vd = Some v.
 Proof.
-  destruct vx_hypotheses as (H1 & H2 & H3 & H4 & e & He & Hc & Hp).
+  destruct vx_hypotheses as (H1 & H2 & H3 & H4 & K3 & e & He & Hc & Hp).
   exists e. apply run_evs_of_dom in He. split; [exact He|].
-  exact (ev_accepts vx_docs (s "r") e H1 H2 H3 He Hc Hp H4).
+  exact (ev_accepts vx_docs (s "r") e H1 H2 H3 He Hc Hp H4 K3).
 Qed.
 
 (* C11: two different document lists with pairwise the same structure (text vs CDATA, comments,
